@@ -276,54 +276,57 @@ func runC02(c *hc.Ctx) error {
 			ids = append(ids, g.DeepestID)
 		}
 		cfg := snap.Config{KeepPointsAndLines: c.Rng.Intn(2) == 0, ReverseWindingOrder: c.Rng.Intn(2) == 0}
-		level := g.Level(id)
-		// expected rings from the independent oracle
-		hot := g.hotPixels(level, poly)
-		var expected [][]Pt
-		shared := map[Pt]int{}
-		ok := true
-		for ri, ring := range poly {
-			r := ring
-			if (areaSign(r) > 0) != (ri == 0) {
-				r = reverseRing(r)
-			}
-			var chain []Pt
-			for k := range r {
-				pts := g.expectedRoute(level, hot, r[k], r[(k+1)%len(r)])
-				if len(pts) > 1 {
-					pts = pts[:len(pts)-1]
-				}
-				if len(chain) > 0 && len(pts) > 0 && pts[0] == chain[len(chain)-1] {
-					pts = pts[1:]
-				}
-				chain = append(chain, pts...)
-			}
-			if len(chain) > 1 && chain[0] == chain[len(chain)-1] {
-				chain = chain[:len(chain)-1]
-			}
-			for _, p := range chain {
-				shared[p]++
-				if shared[p] > 1 {
-					ok = false
-				}
-			}
-			if len(chain) < 3 {
-				ok = false
-			}
-			if cfg.ReverseWindingOrder {
-				chain = reverseRing(chain)
-			}
-			expected = append(expected, chain)
-		}
 		r := runSnap(g, poly, ids, cfg, watchdog)
 		c.Sum.Evaluations++
-		if !ok {
-			c.Count("polygon collapses (not in C02's polygon class)")
-		} else {
-			c.Count("polygon does not collapse: kind " + kind)
-			c.Nontrivial(keyOf(g, poly, ids, cfg))
-			if r.Panic != "" || len(r.ByID[id]) != 1 || !reflect.DeepEqual(r.ByID[id][0], expected) {
-				c.Violate(hc.Violation{What: "a non-collapsing polygon is not returned as the concatenation of its routed edges (shell CCW, holes CW)", Input: caseJSON(g, poly, ids, cfg, r), Expected: expected})
+		// every requested tile matrix is held to the clause (the result of one must not depend on what another one needed)
+		for _, id := range ids {
+			level := g.Level(id)
+			// expected rings from the independent oracle
+			hot := g.hotPixels(level, poly)
+			var expected [][]Pt
+			shared := map[Pt]int{}
+			ok := true
+			for ri, ring := range poly {
+				r := ring
+				if (areaSign(r) > 0) != (ri == 0) {
+					r = reverseRing(r)
+				}
+				var chain []Pt
+				for k := range r {
+					pts := g.expectedRoute(level, hot, r[k], r[(k+1)%len(r)])
+					if len(pts) > 1 {
+						pts = pts[:len(pts)-1]
+					}
+					if len(chain) > 0 && len(pts) > 0 && pts[0] == chain[len(chain)-1] {
+						pts = pts[1:]
+					}
+					chain = append(chain, pts...)
+				}
+				if len(chain) > 1 && chain[0] == chain[len(chain)-1] {
+					chain = chain[:len(chain)-1]
+				}
+				for _, p := range chain {
+					shared[p]++
+					if shared[p] > 1 {
+						ok = false
+					}
+				}
+				if len(chain) < 3 {
+					ok = false
+				}
+				if cfg.ReverseWindingOrder {
+					chain = reverseRing(chain)
+				}
+				expected = append(expected, chain)
+			}
+			if !ok {
+				c.Count("polygon collapses (not in C02's polygon class)")
+			} else {
+				c.Count("polygon does not collapse: kind " + kind)
+				c.Nontrivial(keyOf(g, poly, ids, cfg))
+				if r.Panic != "" || len(r.ByID[id]) != 1 || !reflect.DeepEqual(r.ByID[id][0], expected) {
+					c.Violate(hc.Violation{What: fmt.Sprintf("a non-collapsing polygon is not returned as the concatenation of its routed edges (shell CCW, holes CW) at tile matrix %d", id), Input: caseJSON(g, poly, ids, cfg, r), Expected: expected})
+				}
 			}
 		}
 		c.Case("PolyCase ("+snapCaseTerm(g, poly, ids, cfg, r)+")", caseJSON(g, poly, ids, cfg, r))
